@@ -473,7 +473,11 @@ def select_cases(tier, seed=0):
 
 def standin_select_matrix(tier, seed):
     cs = select_cases(tier, seed)
-    progs = [c[0] for c in cs]
+    # the driver's Display does not escape a backslash inside a string: values holding one are compared inside the program instead
+    def pin(c):
+        return c[0] + '\nlet chk = (x == %s) || fail "PINNED-VALUE-DIFFERS";' % X.cshow(c[1])
+    inprog = [c[1] is not None and '\\' in c[1] for c in cs]
+    progs = [pin(c) if ip else c[0] for c, ip in zip(cs, inprog)]
     res = R.driver('eval', progs)
     # the same programs through `ucg build` (type checker + VM), the value pinned by a fail expression behind `||`
     rnd = random.Random(seed + 77)
@@ -540,6 +544,10 @@ def fmt_templates(p):
         val_l = [l + ('@' if i == at else '') for i, l in enumerate(base)]
         out.append((''.join(l + '@' for l in src_l[:-1]) + src_l[-1], val_l))
     out.append((E + ''.join('@' + E for _ in range(p)), ['@'] * (p + 1)))                 # `\\@@\\@@\\@`: escaped and real ones alternate
+    # an escaped backslash (four backslashes in UCG source = two in the template = ONE literal backslash) directly before every
+    # placeholder and at the very end: the placeholder after it stays a placeholder
+    BS = '\\' * 4
+    out.append((''.join('a' + BS + '@' for _ in range(p)) + 'z' + BS, ['a\\'] * p + ['z\\']))
     return out
 
 
@@ -580,19 +588,26 @@ def format_cases(tier):
 
 def standin_format_counts(tier, seed):
     cs = format_cases(tier)
-    progs = [c[0] for c in cs]
+    # the driver's Display does not escape a backslash inside a string: values holding one are compared inside the program instead
+    def pin(c):
+        return c[0] + '\nlet chk = (x == %s) || fail "PINNED-VALUE-DIFFERS";' % X.cshow(c[1])
+    inprog = [c[1] is not None and '\\' in c[1] for c in cs]
+    progs = [pin(c) if ip else c[0] for c, ip in zip(cs, inprog)]
     res = R.driver('eval', progs)
     rnd = random.Random(seed + 78)
     bidx = list(range(len(cs))) if tier == 'thorough' else sorted(rnd.sample(range(len(cs)), 100))
     bprogs = [cs[i][0] + ('' if cs[i][1] is None else '\nlet chk = (x == %s) || fail "PINNED-VALUE-DIFFERS";' % X.cshow(cs[i][1])) for i in bidx]
     resb = R.driver('buildfile', bprogs)
     n = len(cs) + len(bidx)
-    bound = ('%d list-form format expressions: templates with p = 0..4 `@` placeholders in 8..9 shapes each (text around, none, blanks, non-ASCII text, an escaped `\\\\@` before / between / after, escaped and real '
-             'ones alternating) x n = 1..5 arguments (ints, strings incl. one holding an @, mixed primitives, selectors / arithmetic) in 5 contexts (top level, function body with the parameters as arguments, '
+    bound = ('%d list-form format expressions: templates with p = 0..4 `@` placeholders in 9..10 shapes each (text around, none, blanks, non-ASCII text, an escaped `\\\\@` before / between / after, escaped and real '
+             'ones alternating, an escaped backslash before every placeholder and at the end) x n = 1..5 arguments (ints, strings incl. one holding an @, mixed primitives, selectors / arithmetic) in 5 contexts (top level, function body with the parameters as arguments, '
              'map callback, tuple field, module body)%s; expected: p == n renders every argument in order, p != n is a build error; + %d of them through `ucg build` with the value pinned; the '
              'reference\'s trailing comma in the argument list is NOT enumerated (parse error on the pinned tree, reported)' % (len(cs), '' if tier == 'thorough' else ' [all p == n, half of the p != n]', len(bidx)))
-    for (prog, exp, p, na), (st, out) in zip(cs, res):
-        got = (X.cfields(out) or {}).get('x') if st == 'OK' else None
+    for (prog, exp, p, na), (st, out), ip in zip(cs, res, inprog):
+        if ip:      # never handed to the Display parser (an unescaped trailing backslash swallows the closing quote)
+            got = X.cshow(exp) if st == 'OK' else None
+        else:
+            got = (X.cfields(out) or {}).get('x') if st == 'OK' else None
         if (exp is None and st != 'ERR') or (exp is not None and got != X.cshow(exp)):
             want = X.cshow(exp) if exp is not None else 'a build error (%d placeholders, %d arguments)' % (p, na)
             return dict(name='format_counts', bound=bound, cases=n, status='violation',
